@@ -75,7 +75,7 @@ def run(tier):
     # direct deser jobs are not paired with a ser job: compare them too
     extra = []
     for e in entries + [f4]:
-        cases = [deser_case(job['cls'], out) for job, out in zip(e['jobs'], e['result'].get('results', [])) if job['op'] == 'deser' and 'res' in out]
+        cases = [deser_case(job['cls'], out) for job, out in zip(e['jobs'], e['result'].get('results', [])) if job['op'] == 'deser' and 'res' in out and not out.get('heavy')]
         if cases and e['result'].get('accepted'):
             extra.append((e, cases))
     if extra:
@@ -84,8 +84,8 @@ def run(tier):
             for (e, cases), f in zip(extra, fl):
                 for i in f[:2]:
                     if i >= 0:
-                        jobs = [j for j, o in zip(e['jobs'], e['result']['results']) if j['op'] == 'deser' and 'res' in o]
-                        outs = [o for j, o in zip(e['jobs'], e['result']['results']) if j['op'] == 'deser' and 'res' in o]
+                        jobs = [j for j, o in zip(e['jobs'], e['result']['results']) if j['op'] == 'deser' and 'res' in o and not o.get('heavy')]
+                        outs = [o for j, o in zip(e['jobs'], e['result']['results']) if j['op'] == 'deser' and 'res' in o and not o.get('heavy')]
                         mism.append(dict(kind='deser', entry=e, case=dict(kind='deser', cls=jobs[i]['cls'], out=outs[i]), term=cases[i]))
             C.stream('corr.deserialize-direct', sum(len(c) for _, c in extra), sum(len(c) for _, c in extra))
         except CoqCaseError as ex:
